@@ -7,6 +7,7 @@ import proc
 import world
 import worldscen as ws
 import execbody
+import execseq
 
 R = '@R@'
 ALPHA = [' ', "'", '\\"', '*', '?', '$', '`', ';', '|', '&', '<', '>', '(', ')', '\t', '\n', 'a', 'b', '-', '=', '\xe9', '\xff', '#', '%s', '{', '}', '[', ']', '!', '..', '/']
@@ -176,6 +177,9 @@ def run(rep):
     # "reads the complete content from offset 0" when the transfer into the temporary file is disturbed (short counts, EINTR, ENOSPC,
     # file size limit): tools/execbody.py, shared with C11
     fault_cov = execbody.stage(rep, tools, whole_part=True)
+    # what a command reads on standard input across ACTION SEQUENCES (rewrites, renames, copies before / between / after the commands):
+    # tools/execseq.py, shared with C11
+    seq_cov = execseq.stage(rep, tools, W, focus='all')
     if corr_bad and not rep.violations:
         rep.violation({'obligation': 'correspondence: an exec scenario does not follow Model.mainP', 'disagreements': len(corr_bad), 'examples': corr_bad[:6]}, False)
     vlib.lean_conclude(rep)
@@ -192,6 +196,7 @@ def run(rep):
         'kinds': kinds,
         'correspondence_mismatches': len(corr_bad),
         'stdin_under_write_faults': fault_cov,
+        'stdin_across_action_sequences': seq_cov,
     })
 
 
@@ -203,4 +208,6 @@ def replay(rep, path):
     vlib.lean_gate(rep, 'C13', sc, [])
     if j.get('stage') == 'execbody':
         execbody.replay(proc.Tools(sc), j)
+    if j.get('stage') == 'execseq':
+        execseq.replay(proc.Tools(sc), j)
     rep.coverage.update({'evaluations': 1, 'distinct_nontrivial': 1})
